@@ -75,7 +75,7 @@ ALL_INVS = ("INVARIANT Deterministic\nINVARIANT DeterministicScene\nINVARIANT Pr
 TRACE_CFG = """SPECIFICATION TraceSpec
 CONSTANTS
   OrderedDeps = TRUE
-  RestoreRng = TRUE
+  RestoreRng = "always"
   FullPairs = TRUE
   MaxPrior = 0
   R = 2
@@ -218,6 +218,8 @@ def make_case(ast, max_iter, dynamic=False):
     if not prims(eroots) <= prims(froots + rroots + broots):
         raise G.IllFormed("anonymous random value inside a requirement")
     prog["froots"], prog["rroots"], prog["broots"], prog["eroots"] = froots, rroots, broots, eroots
+    prog["pre"], prog["post"] = froots, broots + eroots
+    info["group_kind"] = "random values referenced only from requirements"
     for r, ic in zip(prog["reqs"], ics):
         r["ic"] = ic
     text = G.to_scenic(ast).replace(G.PRELUDE, G.PRELUDE + MYPRELUDE + (DYN_BEHAVIOR if dynamic else ""), 1)
@@ -290,6 +292,10 @@ def family(tier="thorough"):
                         # dependency (appended after the requirement dependencies), g1 only that
                         dyn = [("let", "g1", ("drange", L(0), L(1)))] + ast + [("object", V("q"))]
                         out.append(make_case(dyn, 2, dynamic=True))
+    # classes: the permuted group is the object's random properties, at the FRONT of the dependencies
+    for ti in ((0, 2, 4) if tier == "quick" else range(len(CLASS_TEMPLATES))):
+        out.append(class_case(CLASS_TEMPLATES[ti], 2))
+    out.append(class_case(CLASS_TEMPLATES[0], 2, soft=Fraction(1, 2)))
     return out
 
 
@@ -384,6 +390,134 @@ def random_case(rng, max_iter, dynamic=False):
     if not any(s[0] == "param" for s in ast):
         ast.append(("param", "p0", leaf()))
     return make_case(ast, max_iter, dynamic)
+
+
+# ---- classes whose property defaults depend on several random properties
+# (name, expression) in declaration order; V(x) inside an expression means self.x
+def _D(a, b):
+    return ("drange", L(a), L(b))
+
+
+CLASS_TEMPLATES = [
+    # the shape of the seeded-change demo: derived default declared BEFORE the two it needs
+    dict(props=[("footprint", ("bin", "mul", V("width"), V("length"))), ("width", _D(1, 2)), ("length", _D(2, 4))],
+         param="footprint", req=("cmp", "ge", V("footprint"), L(4))),
+    dict(props=[("width", _D(1, 2)), ("length", _D(2, 4)), ("footprint", ("bin", "mul", V("width"), V("length")))],
+         param="footprint", req=("cmp", "le", V("footprint"), L(6))),
+    # three random properties, one default needing all of them
+    dict(props=[("total", ("bin", "add", ("bin", "add", V("alpha"), V("beta")), V("gamma"))),
+                ("alpha", _D(0, 3)), ("beta", _D(2, 4)), ("gamma", _D(1, 5))],
+         param="total", req=("cmp", "ge", V("total"), L(7))),
+    # shared dependency: two defaults both need `beta`
+    dict(props=[("area", ("bin", "mul", V("alpha"), V("beta"))), ("alpha", _D(1, 3)),
+                ("slack", ("bin", "sub", V("beta"), V("gamma"))), ("beta", _D(2, 5)), ("gamma", _D(0, 2))],
+         param="area", req=("cmp", "ge", V("slack"), L(2))),
+    # dependency chain: a random property whose bound is another random property, then a default over both ends
+    dict(props=[("span", ("bin", "mul", V("hi"), V("depth"))), ("lo", _D(0, 2)), ("hi", ("drange", V("lo"), L(4))), ("depth", _D(1, 3))],
+         param="span", req=("cmp", "ge", V("span"), L(3))),
+    # default of a default
+    dict(props=[("bulk", ("bin", "add", V("area"), V("tall"))), ("area", ("bin", "mul", V("wide"), V("deep"))),
+                ("wide", _D(1, 3)), ("deep", _D(1, 2)), ("tall", _D(0, 4))],
+         param="bulk", req=("cmp", "le", V("bulk"), L(6))),
+    # one of the needed properties given by an explicit specifier at the instance
+    dict(props=[("cost", ("bin", "sub", ("bin", "mul", V("p"), V("q")), V("r"))), ("p", _D(1, 3)), ("q", _D(1, 3)), ("r", _D(0, 2))],
+         param="cost", req=("cmp", "ge", V("cost"), L(2)), override=("q", ("uniform", [L(1), L(2), L(4)]))),
+    # non-range distributions, single-letter names
+    dict(props=[("k", ("bin", "add", V("a"), V("b"))), ("a", ("uniform", [L(0), L(2), L(5)])),
+                ("b", ("discrete", [(L(1), 1), (L(3), 2)])), ("c", _D(0, 1))],
+         param="k", req=("cmp", "ne", V("k"), L(3))),
+]
+
+
+def _rename(e, f):
+    if isinstance(e, tuple) and e and e[0] == "var":
+        return ("var", f(e[1]))
+    if isinstance(e, tuple):
+        return tuple(_rename(x, f) for x in e)
+    if isinstance(e, list):
+        return [_rename(x, f) for x in e]
+    return e
+
+
+def _vars(e, acc):
+    if isinstance(e, tuple) and e and e[0] == "var":
+        if e[1] not in acc:
+            acc.append(e[1])
+    elif isinstance(e, (tuple, list)):
+        for x in e:
+            _vars(x, acc)
+    return acc
+
+
+def class_case(tpl, max_iter=20, soft=None):
+    """A class with the template's property defaults, one instance, one requirement on a derived
+    property.  The spec sees the same values as a let-program; the order in which the object's
+    random properties are sampled (it comes out of specifier resolution) is the unlogged group."""
+    props = list(tpl["props"])
+    override = tpl.get("override")
+    exprs = dict(props)
+    if override:
+        exprs[override[0]] = override[1]
+    # let-program in a dependency-respecting order
+    done, lets = [], []
+
+    def emit(nm):
+        if nm in done:
+            return
+        for d in _vars(exprs[nm], []):
+            emit(d)
+        done.append(nm)
+        lets.append(("let", nm, exprs[nm]))
+
+    for nm, _e in props:
+        emit(nm)
+    names = [nm for nm, _e in props]
+    ast = lets + [("param", "shown", V(tpl["param"])), ("require", soft, tpl["req"])]
+    prog, info = G.to_prog(ast, max_iter)
+    nodes = prog["nodes"]
+    aug, _ = G.to_prog(ast + [("param", f"zz{i}", V(nm)) for i, nm in enumerate(names)], max_iter)
+    if aug["nodes"][: len(nodes)] != nodes:
+        raise G.IllFormed("name lookup changed the DAG")
+    node_of = dict(zip(names, aug["outs"][len(prog["outs"]):]))
+    group = [node_of[nm] for nm in names if nodes[node_of[nm] - 1]["k"] in ("drange", "mux")]
+    derived = [node_of[nm] for nm in names if node_of[nm] not in group]
+    post = derived + [n for n in prog["roots"] if n not in group and n not in derived]
+    prog["outs"] = prog["outs"] + [node_of[nm] for nm in names]
+    info["outnames"] = info["outnames"] + [["prop", nm] for nm in names]
+    prog["froots"], prog["rroots"], prog["broots"], prog["eroots"] = [], group, [], post
+    prog["pre"], prog["post"] = [], post
+    prog["reqs"][0]["ic"] = 0
+    body = "\n".join(f"    {nm}: {G.expr_text(_rename(e, lambda x: 'self.' + x))}" for nm, e in props)
+    inst = "ego = new Crate at (0, 0, 0.5)"
+    if override:
+        inst += f", with {override[0]} {G.expr_text(override[1])}"
+    reqtext = ("require " if soft is None else f"require[{float(soft)}] ") + G.cond_text(_rename(tpl["req"], lambda x: "ego." + x))
+    text = (G.PRELUDE + MYPRELUDE + f"class Crate(Object):\n{body}\n{inst}\nparam shown = ego.{tpl['param']}\n{reqtext}\n")
+    info.update(ast=repr(ast), nreq=1, nrr=len(group), noise=0, mode="class", group_kind="random properties of the object",
+                depsets=[_vars(e, []) for _nm, e in props if len(_vars(e, [])) >= 2], accept_rate=None)
+    return text, prog, info
+
+
+# ---- requirement checks that consume the global generators by themselves (no helper): an object
+# in a ring-shaped mesh arena (the containment check samples the mesh volume with NumPy), a
+# rejecting user requirement, and a NumPy-drawn visible value (the position in the arena)
+GEOM_TEXT = """import trimesh, shapely.geometry as sg
+ring = sg.Point(0, 0).buffer({outer}, 8).difference(sg.Point(0, 0).buffer({inner}, 8))
+arena = MeshVolumeRegion(trimesh.creation.extrude_polygon(ring, 4), centerMesh=False)
+workspace = Workspace(arena)
+x = Range(0, 1)
+param x = x
+ego = new Object in arena, with width {size}, with length {size}, with height 1.5
+require x > {thr}
+"""
+
+
+def geom_case(k):
+    pars = [dict(outer=10, inner=6, size=1.5, thr=0.6), dict(outer=9, inner=5, size=1.2, thr=0.5),
+            dict(outer=12, inner=8, size=1.5, thr=0.7), dict(outer=10, inner=7, size=1.0, thr=0.4)][k % 4]
+    info = {"mode": "geom", "outnames": [], "nreq": 1, "nrr": 0, "noise": 1, "nscenes": 3, "max_iter": 2000,
+            "group_kind": "-", "nprims": 99, "branches": 10**9}
+    return GEOM_TEXT.format(**pars), None, info
 
 
 def canary():
@@ -485,17 +619,61 @@ def gen_programs(sd, count, max_iter, dynamic_every=5):
 
 
 # ------------------------------------------------------------------ fresh processes
-def perturbations(rng, n):
-    """Process 0 is the plain one; the others differ in hash seed, layout, clock and history."""
-    ps = [{"hashseed": 0, "junk_keep": 0, "junk_holes": 0, "jitter_seed": 0, "prior": 0, "env_pad": 0}]
-    for i in range(1, n):
+def hash_orders(namesets, seeds):
+    """Iteration order of each set of property names under each PYTHONHASHSEED (one tiny
+    interpreter per seed, no scenic): used to pick hash seeds that order the names differently."""
+    code = "import json,sys; print(json.dumps([list(set(ns)) for ns in json.loads(sys.argv[1])]))"
+
+    def one(hs):
+        out = subprocess.run([PY, "-c", code, json.dumps(namesets)], env={"PYTHONHASHSEED": str(hs), "PATH": "/usr/bin:/bin"},
+                             capture_output=True, text=True, timeout=60)
+        return json.loads(out.stdout)
+
+    with ThreadPoolExecutor(8) as ex:
+        return dict(zip(seeds, ex.map(one, seeds)))
+
+
+def pick_hashseeds(depsets, n, orders):
+    """n hash seeds out of 0..15 covering as many distinct orderings of the name sets as possible
+    (first the seeds that bring a new ordering, then 0..7 in order)."""
+    sig = {hs: json.dumps([orders[hs][k] for k in depsets]) for hs in orders}
+    chosen, seen = [], set()
+    for hs in sorted(orders):
+        if sig[hs] not in seen and len(chosen) < n:
+            seen.add(sig[hs])
+            chosen.append(hs)
+    for hs in sorted(orders):
+        if hs not in chosen and len(chosen) < n:
+            chosen.append(hs)
+    return chosen, len(seen)
+
+
+def perturbations(rng, n, i=0, hashseeds=None, pure_pair=False):
+    """Process 0 is the plain one (scripted clock profile "asc"), process 1 checks the
+    requirements in the opposite order ("desc"); the others differ in hash seed, layout, clock
+    profile (asc / desc / jitter), history, import order and whether the process is reused.
+    Hash seeds: given (class programs: chosen to order the property names differently), else 0,
+    two of 1..7 (rotating with the program number) and random large ones."""
+    if hashseeds is None:
+        hashseeds = [0, 1 + (2 * i) % 7, 1 + (2 * i + 1) % 7] + [rng.randint(8, 4000000) for _ in range(max(0, n - 3))]
+        hashseeds = [hashseeds[0], hashseeds[3] if n > 3 else hashseeds[1]] + hashseeds[1:3] + hashseeds[4:]
+    ps = [{"hashseed": hashseeds[0], "junk_keep": 0, "junk_holes": 0, "clock": "asc", "jitter_seed": None, "prior": 0,
+           "env_pad": 0, "warmup": 0, "import_order": 0}]
+    for k in range(1, n):
+        if k == 1 and pure_pair:  # differs from process 0 in the timing profile ONLY
+            ps.append(dict(ps[0], clock="desc"))
+            continue
+        clock = "desc" if k == 1 else rng.choice(["asc", "desc", "jitter", "jitter"])
         ps.append({
-            "hashseed": rng.randint(1, 4000000),
+            "hashseed": hashseeds[k % len(hashseeds)],
             "junk_keep": rng.choice([0, 1, 2, 3, 5, 7, 11, 16, 23, 40]),
             "junk_holes": rng.choice([0, 0, 1, 2, 4, 9]),
-            "jitter_seed": rng.randint(1, 10**6),
+            "clock": clock,
+            "jitter_seed": rng.randint(1, 10**6) if clock == "jitter" else None,
             "prior": rng.choice([0, 1, 2, 3]),
             "env_pad": rng.choice([0, 0, 7, 33, 150, 1000]),
+            "warmup": rng.choice([0, 0, 1, 2]),
+            "import_order": rng.choice([0, 1, 2, 3]),
         })
     return ps
 
@@ -510,6 +688,8 @@ def run_worker(job):
     env = {k: os.environ[k] for k in ("HOME", "LANG", "OMP_NUM_THREADS", "OPENBLAS_NUM_THREADS", "MKL_NUM_THREADS",
                                       "NUMEXPR_NUM_THREADS", "VERIF_REPO") if k in os.environ}
     env["PATH"] = "/usr/local/bin:/usr/bin:/bin"
+    if os.environ.get("PYTHONPATH"):  # the tree under test may be given this way (seeded-change runs)
+        env["PYTHONPATH"] = os.environ["PYTHONPATH"]
     env["PYTHONHASHSEED"] = str(job["perturb"]["hashseed"])
     if job["perturb"].get("env_pad"):
         env["C15_PAD"] = "x" * int(job["perturb"]["env_pad"])  # one more way of moving the heap
@@ -530,15 +710,35 @@ def run_worker(job):
     return {"ok": False, "infra": True, "error": err}
 
 
-def run_processes(items, nproc, mutant=None, rng_seed=0, mode="static"):
-    """items: (text, prog, info).  Returns per program: list of (perturbation, worker result)."""
-    jobs = []
-    for i, (text, prog, info) in enumerate(items):
+def plan_processes(items, nproc, rng_seed=0):
+    """The perturbations of every process of every program (deterministic in the seed)."""
+    depsets = sorted({tuple(ds) for _t, _p, info in items for ds in info.get("depsets", [])})
+    orders = hash_orders([list(ds) for ds in depsets], list(range(16))) if depsets else {}
+    orders = {hs: {ds: o for ds, o in zip(depsets, os_)} for hs, os_ in orders.items()}
+    plan = []
+    for i, (_text, _prog, info) in enumerate(items):
         prng = random.Random(rng_seed * 1000003 + i)
-        for pi, pert in enumerate(perturbations(prng, nproc)):
+        mode = info.get("mode", "static")
+        if mode == "class":
+            seeds, ndist = pick_hashseeds([tuple(ds) for ds in info["depsets"]], nproc + 1, orders)
+            info["hash_orderings_covered"] = ndist
+            plan.append(perturbations(prng, nproc + 1, i, hashseeds=seeds))
+        elif mode == "geom":
+            plan.append(perturbations(prng, max(4, nproc - 1), i, pure_pair=True))
+        else:
+            plan.append(perturbations(prng, nproc, i))
+    return plan
+
+
+def run_processes(items, nproc, mutant=None, rng_seed=0, mode="static"):
+    """items: (text, prog, info).  Returns per program: list of (job, worker result)."""
+    jobs = []
+    for i, ((text, prog, info), perts) in enumerate(zip(items, plan_processes(items, nproc, rng_seed))):
+        for pi, pert in enumerate(perts):
             jobs.append({
                 "id": f"{i:04d}-{pi:02d}", "prog": i, "proc": pi, "text": text, "seed": 1000 + 17 * i + rng_seed,
-                "max_iter": prog["maxIter"], "outnames": info["outnames"], "mode": info.get("mode", mode),
+                "max_iter": info.get("max_iter") or prog["maxIter"], "outnames": info["outnames"], "mode": info.get("mode", mode),
+                "nscenes": info.get("nscenes", 1),
                 "steps": info.get("steps", 4), "perturb": pert, "mutant": mutant, "timeout": 300,
             })
     with ThreadPoolExecutor(6) as ex:
@@ -650,32 +850,43 @@ def judge(ck, items, per, joint, single, progress, mutant=None, stats=None):
                          {"property": "C15", "program": text, "perturbations": [j["perturb"] for j, _r in runs],
                           "errors": [r.get("error") for _j, r in runs]})
             continue
-        nrr = len(prog["rroots"])
+        fam = info.get("mode", "static")
+        fstat = stats.setdefault("by_family", {}).setdefault(fam, {"programs": 0, "processes": 0, "differing": 0,
+                                                                       "hash_seeds": [], "clock_profiles": []})
+        fstat["programs"] += 1
+        fstat["processes"] += len(runs)
+        fstat["hash_seeds"] = sorted(set(fstat["hash_seeds"]) | {j["perturb"]["hashseed"] for j, _r in runs})[:24]
+        fstat["clock_profiles"] = sorted(set(fstat["clock_profiles"]) | {j["perturb"]["clock"] for j, _r in runs})
+        stats["scenic_paths"] = sorted(set(stats.get("scenic_paths", [])) | {r.get("scenic_path") for _j, r in runs})
+        traced = prog is not None
+        nrr = len(prog["rroots"]) if traced else 0
         if nrr >= 2:
             stats["programs_ge2"] += 1
         if len({json.dumps(r.get("dep_order")) for _j, r in runs}) > 1:
             stats["programs_with_reordered_dependencies"] += 1
         dumps = [json.dumps(r["dump"], sort_keys=True) for _j, r in runs]
         same = all(d == dumps[0] for d in dumps)
-        explained = [bool(single[i][p]) for p in range(len(runs))]
-        ck.case(text, nontrivial=(nrr >= 2 or info["nreq"] >= 2))
+        explained = [bool(single[i][p]) for p in range(len(runs))] if traced else []
+        ck.case(text, nontrivial=(nrr >= 2 or info["nreq"] >= 2 or fam == "geom"))
         ck.validated(sum(explained))
         stats["unexplained_traces"] += len(explained) - sum(explained)
         groups = {}
         for p, d in enumerate(dumps):
             groups.setdefault(d, []).append(p)
-        if i < 3:  # what a case looks like (the first programs of the run, whatever their verdict)
-            ck.sample({"program": text.replace(G.PRELUDE + MYPRELUDE, ""), "seed": runs[0][0]["seed"],
-                       "requirement_only_roots": [describe(prog, n) for n in prog["rroots"]],
+        if fam not in stats.setdefault("sampled_families", []):  # what a case of each family looks like
+            stats["sampled_families"].append(fam)
+            ck.sample({"family": fam, "program": text.replace(G.PRELUDE + MYPRELUDE, ""), "seed": runs[0][0]["seed"],
+                       "unordered_group": {"kind": info.get("group_kind"),
+                                           "roots": [describe(prog, n) for n in prog["rroots"]] if traced else []},
                        "perturbations": [j["perturb"] for j, _r in runs],
                        "distinct_dumps": len(groups), "dump_of_process_0": runs[0][1]["dump"],
                        "user_visible_draws_of_process_0": [[d["fn"], d["args"], d["res"]] for d in runs[0][1]["draws"]
                                                             if not d["internal"]][:40],
                        "internal_draws_of_process_0": sum(1 for d in runs[0][1]["draws"] if d["internal"]),
                        "dependency_orders_explaining_all_processes": joint[i],
-                       "dependency_orders_explaining_each_process": single[i]}, limit=3)
+                       "dependency_orders_explaining_each_process": single[i]}, limit=5)
         flip = None
-        if not joint[i] and all(explained):
+        if traced and not joint[i] and all(explained):
             reps = [g[0] for g in groups.values()] if not same else list(range(len(runs)))
             for a, b in itertools.combinations(reps, 2):
                 if not any(o in single[i][b] for o in single[i][a]):
@@ -685,6 +896,8 @@ def judge(ck, items, per, joint, single, progress, mutant=None, stats=None):
                         break
         if same:
             stats["identical"] += 1
+            if not traced:
+                continue
             if not joint[i] and all(explained):
                 # the draws were reordered but the dump happens not to show it: an observation
                 stats["reordered_same_dump"] += 1
@@ -705,27 +918,36 @@ def judge(ck, items, per, joint, single, progress, mutant=None, stats=None):
         # >= 2 requirement-only random roots, every process on its own IS a behaviour of the sampler
         # (scene, attempt count and draws replayed by DeterminismTrace) under some permutation of
         # those roots, and no single permutation explains them all.
-        known = nrr >= 2 and all(explained) and not joint[i]
+        fstat["differing"] += 1
+        by_group = traced and nrr >= 2 and all(explained) and not joint[i]
+        known = by_group and fam != "class"
         a, b = [g[0] for g in list(groups.values())[:2]]
         replay = {
-            "property": "C15", "program": text, "seed": runs[0][0]["seed"], "max_iter": prog["maxIter"],
-            "outnames": info["outnames"], "mutant": mutant,
+            "property": "C15", "program": text, "seed": runs[0][0]["seed"], "max_iter": runs[0][0]["max_iter"],
+            "outnames": info["outnames"], "mutant": mutant, "mode": fam, "nscenes": info.get("nscenes", 1),
+            "scenic_path": runs[0][1].get("scenic_path"),
             "processes": [{"perturbation": j["perturb"], "job_id": j["id"], "dump": r["dump"], "dependency_order": r.get("dep_order"),
                            "explaining_orders": single[i][p],
                            "user_visible_draws": [[d["fn"], d["args"], d["res"]] for d in r["draws"] if not d["internal"]]}
                           for p, (j, r) in enumerate(runs)],
             "groups_of_equal_dumps": list(groups.values()),
-            "requirement_only_roots": [{"node": n, "value": describe(prog, n)} for n in prog["rroots"]],
+            "unordered_group": {"kind": info.get("group_kind"),
+                                "roots": [{"node": n, "value": describe(prog, n)} for n in prog["rroots"]] if traced else []},
             "single_order_explaining_all": joint[i], "flipped": flip,
             "first_difference": first_diff(runs[a][1], runs[b][1]),
         }
         msg = (f"dumps differ across {len(runs)} fresh processes with the same seed "
                f"({len(groups)} distinct dumps; processes {a} and {b}: {replay['first_difference']}); ")
-        if known:
-            msg += (f"explained by the order of requirement-only values: {flip['first']['value']} / {flip['second']['value']} flipped"
-                    if flip else "explained by a permutation of the requirement-only values")
+        if by_group:
+            msg += (f"explained by the order of the {info.get('group_kind')}: {flip['first']['value']} / {flip['second']['value']} flipped"
+                    if flip else f"explained by a permutation of the {info.get('group_kind')}")
+        elif traced:
+            msg += (f"NOT explained by a permutation of the {info.get('group_kind')}"
+                    + ("; ONE order explains every draw trace, so the processes drew the same values in the same order and "
+                       "parted ways in what the draws do not show (generator state, values drawn from NumPy)" if joint[i] else ""))
         else:
-            msg += "NOT explained by a permutation of requirement-only values"
+            diff = [(runs[x][0]["perturb"]["clock"], runs[x][0]["perturb"]["hashseed"]) for x in (a, b)]
+            msg += f"(no draw-level diagnosis for this family; processes differ in (clock profile, hash seed) {diff[0]} vs {diff[1]})"
         if ck.violation(msg, replay, known_key=KNOWN_KEY if known else None) is False:
             stats["differing_known"] += 1
             ck.sample({"known_finding": KNOWN_KEY, "program": text.replace(G.PRELUDE + MYPRELUDE, ""),
@@ -761,7 +983,7 @@ def expand_variants(progs):
             e["base"] = b + 1
             e["perm"] = list(perm)
             e["ref"] = list(perm) == list(range(1, n + 1))
-            e["roots"] = p["froots"] + [p["rroots"][x - 1] for x in perm] + p["broots"] + p["eroots"]
+            e["roots"] = p["pre"] + [p["rroots"][x - 1] for x in perm] + p["post"]
             entries.append(e)
             index.append((b, list(perm)))
     return entries, index
@@ -775,7 +997,7 @@ def model_check(ck, progs, tier):
     path = write_progs(entries, "model-progs.json")
     env = {"PROGS": path, "PRINT_HIST": "0", "PRINT_PAIRS": "0"}
     # (A) ideal model: insertion ordered -> the property holds in every environment
-    res = run_tlc("Determinism", CFG.format(ordered="TRUE", restore="TRUE", full=full, prior=2, R=R_, more=ALL_INVS), env=env,
+    res = run_tlc("Determinism", CFG.format(ordered="TRUE", restore='"always"', full=full, prior=2, R=R_, more=ALL_INVS), env=env,
                   coverage=True, timeout=2400)
     ck.add_tlc("Determinism[OrderedDeps]", res)
     need = ["PriorScene", "Reseed", "DActivate", "DDraw", "Reused", "SaveRng", "CheckAny",
@@ -784,7 +1006,7 @@ def model_check(ck, progs, tier):
     if missing:
         raise MachineryError(f"Determinism actions never taken (vacuous model): {missing}")
     # (B) as-implemented deviation: set ordered -> must FAIL
-    res = run_tlc("Determinism", CFG.format(ordered="FALSE", restore="TRUE", full=full, prior=2, R=R_, more="INVARIANT DeterministicScene\n"), env=env,
+    res = run_tlc("Determinism", CFG.format(ordered="FALSE", restore='"always"', full=full, prior=2, R=R_, more="INVARIANT DeterministicScene\n"), env=env,
                   expect_fail=True, timeout=2400)
     if res.invariant_violated != "DeterministicScene":
         raise MachineryError("the set-ordered model did not violate Deterministic: the spec cannot exhibit the "
@@ -804,12 +1026,23 @@ def model_check(ck, progs, tier):
     # (C) spec-level mutant: without RestoreRng the property fails (the section is load-bearing)
     noisy = [p for p in progs if any(r["ic"] for r in p["reqs"])]
     nentries, _ = expand_variants(noisy)
-    res = run_tlc("Determinism", CFG.format(ordered="TRUE", restore="FALSE", full=full, prior=2, R=R_, more="INVARIANT DeterministicScene\n"),
+    res = run_tlc("Determinism", CFG.format(ordered="TRUE", restore='"never"', full=full, prior=2, R=R_, more="INVARIANT DeterministicScene\n"),
                   env=dict(env, PROGS=write_progs(nentries, "model-noisy.json")), expect_fail=True, timeout=2400)
     if res.invariant_violated != "DeterministicScene":
         raise MachineryError(f"the model without RestoreRng did not fail (violated: {res.invariant_violated}; {res.error})")
     ck.add_tlc("Determinism[no RestoreRng, expected to fail]", res)
     ck.cov["no_restore_model"] = {"violated": res.invariant_violated}
+    # (D) spec-level mutant: restored only when the sample is accepted -> the randomness a rejected
+    # sample's checks consumed leaks, and how much depends on the checker's order: must fail too
+    res = run_tlc("Determinism", CFG.format(ordered="TRUE", restore='"accepted"', full=full, prior=2, R=R_, more="INVARIANT DeterministicScene\n"),
+                  env=dict(env, PROGS=write_progs(nentries, "model-noisy.json")), expect_fail=True, timeout=2400)
+    if res.invariant_violated != "DeterministicScene":
+        raise MachineryError(f"the model restoring only accepted samples did not fail (violated: {res.invariant_violated}; {res.error})")
+    ck.add_tlc("Determinism[RestoreRng only when accepted, expected to fail]", res)
+    cex = [o for o in res.outputs if o.get("t") == "cex"]
+    ck.cov["restore_accepted_only_model"] = {"violated": res.invariant_violated,
+                                             "counterexample": ({"stream": cex[0]["stream"], "observable_copy1": cex[0]["obs1"],
+                                                                 "observable_copy2": cex[0]["obs2"]} if cex else None)}
     ck.cov["model_programs"] = len(progs)
     ck.cov["model_program_variants"] = len(entries)
 
@@ -819,10 +1052,13 @@ def main(tier, mutant=None, ck=None, items=None, nproc=None):
     own = ck is None
     ck = ck or Check("C15", tier, "model_checking")
     ck.cov["rule"] = (
-        "a case is one generated program of the finite-discrete fragment compiled and sampled in N fresh "
-        "interpreters with the same seeds and different perturbations (hash seed, junk allocation before "
-        "compilation, jittering checker clock, 0-3 scenes before re-seeding); non-trivial = at least two "
-        "requirement-only random values or at least two requirements; distinct by program text")
+        "a case is one generated program (finite-discrete programs with requirement-only values and requirements that "
+        "consume the global generators; classes whose property defaults need several random properties; a ring-arena "
+        "program whose containment check samples with NumPy) compiled and sampled in N fresh interpreters with the same "
+        "seeds and different perturbations (hash seed 0..7 and beyond, chosen per class program to order the property "
+        "names differently; junk allocation before compilation; scripted asc/desc and jittering checker clock; 0-3 scenes "
+        "before re-seeding; import order; reused process); non-trivial = at least two values in the unordered group, at "
+        "least two requirements, or a geometric program; distinct by program text")
     ck.assumptions += [
         "finite-discrete fragment (DiscreteRange/Uniform/Discrete, lifted operators, params, one object property, "
         "hard and soft requirements, requirements that consume the global generators while being checked)",
@@ -834,9 +1070,16 @@ def main(tier, mutant=None, ck=None, items=None, nproc=None):
     ]
     nproc = nproc or int(os.environ.get("C15_NPROC", 0)) or (5 if tier == "quick" else 8)
     if items is None:
-        nprog = int(os.environ.get("C15_NPROG", 0)) or (30 if tier == "quick" else 200)  # overrides: smoke tests only
-        items, dropped = gen_programs(seed() * 104729 + 15, nprog - 1, 20)
-        items = [canary()] + items
+        nprog = int(os.environ.get("C15_NPROG", 0)) or (29 if tier == "quick" else 200)  # overrides: smoke tests only
+        ncls, ngeom = (6, 2) if tier == "quick" else (16, 4)
+        if nprog < 20:
+            ncls, ngeom = 3, 1
+        nt = len(CLASS_TEMPLATES)
+        cls = [class_case(CLASS_TEMPLATES[(seed() + j) % nt], 20, soft=(Fraction(1, 2) if j >= nt else None)) for j in range(ncls)]
+        geo = [geom_case(seed() + j) for j in range(ngeom)]
+        items, dropped = gen_programs(seed() * 104729 + 15, max(1, nprog - 1 - ncls - ngeom), 20)
+        # the slow (geometric) programs first, so that they overlap with the others
+        items = geo + [canary()] + cls + items
         ck.cov["dropped_by_generator"] = dropped
 
     t0 = time.time()
@@ -845,7 +1088,8 @@ def main(tier, mutant=None, ck=None, items=None, nproc=None):
         fut = bg.submit(run_processes, items, nproc, mutant, seed())
         if own:
             fam = [p for _t, p, _i in family(tier)]
-            small = [dict(p, maxIter=2) for _t, p, i in items if i["nprims"] <= 4 and i["branches"] <= 300][: (6 if tier == "quick" else 60)]
+            small = [dict(p, maxIter=2) for _t, p, i in items
+                     if p is not None and i.get("mode") != "class" and i["nprims"] <= 4 and i["branches"] <= 300][: (6 if tier == "quick" else 60)]
             model_check(ck, fam + small, tier)
         per = fut.result()
     ck.cov["processes_wall_s"] = round(time.time() - t0, 1)
@@ -853,12 +1097,12 @@ def main(tier, mutant=None, ck=None, items=None, nproc=None):
     if sum(len(r) for r in okper) == 0:
         raise MachineryError(f"no worker process succeeded: {per[0][0][1]}")
     # trace validation only for programs whose processes all ran
-    full_items = [(it, runs) for it, runs in zip(items, per) if all(r.get("ok") for _j, r in runs)]
+    full_items = [(it, runs) for it, runs in zip(items, per) if it[1] is not None and all(r.get("ok") for _j, r in runs)]
     joint, single, progress = run_trace_tlc(ck, [it for it, _ in full_items], [runs for _it, runs in full_items])
     jmap, smap, pmap_ = {}, {}, {}
     fi = 0
     for i, (it, runs) in enumerate(zip(items, per)):
-        if all(r.get("ok") for _j, r in runs):
+        if it[1] is not None and all(r.get("ok") for _j, r in runs):
             jmap[i], smap[i] = joint[fi], single[fi]
             for (a, b), v in progress.items():
                 if a == fi:
@@ -894,7 +1138,8 @@ def replay(path):
     for pi, pr in enumerate(rp["processes"]):
         # the same job id: even the length of argv moves the heap (and with it the set order)
         jobs.append({"id": pr.get("job_id", f"0000-{pi:02d}"), "prog": 0, "proc": pi, "text": rp["program"], "seed": rp["seed"],
-                     "max_iter": prog["maxIter"], "outnames": info["outnames"], "mode": "static", "perturb": pr["perturbation"],
+                     "max_iter": prog["maxIter"], "outnames": info["outnames"], "mode": rp.get("mode", "static"),
+                     "nscenes": rp.get("nscenes", 1), "timeout": 300, "perturb": pr["perturbation"],
                      "mutant": rp.get("mutant")})
     with ThreadPoolExecutor(6) as ex:
         results = list(ex.map(run_worker, jobs))
